@@ -78,7 +78,10 @@ args = sys.argv[1:]
 n = int(args[0]); rc = int(args[1]); tag = args[2]
 sys.stdout.write(json.dumps(args[3:]) + "\n")
 for i in range(n):
-    sys.stdout.write("%s line %d%s\n" % (tag, i, " " * (i % 3)))
+    if i % 4 == 3:
+        sys.stdout.write("\n" if i % 8 == 3 else "   \n")     # a blank line, a line of blanks: lines like any other
+    else:
+        sys.stdout.write("%s line %d%s\n" % (tag, i, " " * (i % 3)))
 sys.stdout.flush()
 sys.exit(rc)
 """
@@ -147,7 +150,7 @@ def real_commands(rng, n_cmds, n_threads, with_findings=False):
         if out is None:
             viol.append("C18: Command %s failed to run: %s" % (sp["tag"], rc))
             continue
-        want = [json.dumps(sp["extra"])] + [("%s line %d%s" % (sp["tag"], i, " " * (i % 3))).rstrip() for i in range(sp["n"])]
+        want = [json.dumps(sp["extra"])] + [("" if i % 4 == 3 else ("%s line %d%s" % (sp["tag"], i, " " * (i % 3))).rstrip()) for i in range(sp["n"])]
         if out != want:
             viol.append("C18: Command %s yielded stdout %r, its program printed %r" % (sp["tag"], out[:4], want[:4]))
         if rc != sp["rc"]:
@@ -175,8 +178,71 @@ def real_commands(rng, n_cmds, n_threads, with_findings=False):
     if with_findings:
         known.extend(probe_findings(Command, Till, mo_threads))
         viol.extend(probe_idle_reuse(Command, Till, mo_threads))
+        viol.extend(probe_dead_shell(Command, Till, mo_threads))
     Command._worker = orig_worker
     return lines, viol, known, samples
+
+
+def probe_dead_shell(Command, Till, mo_threads):
+    """history of shell reuse: a shell dies while it runs a Command (here: killed by the command itself; a command that the
+    inactivity monitor kills, or `exit`, has the same effect).  The next Command for the same directory must get a live shell:
+    its own lines, its own status.  The dead shell's `stopped` is made to come a moment after the pool's sweep (the usual
+    order; the last step of its monitor is delayed from here), so that it is still in the pool when the next Command asks."""
+    import tempfile
+    import time
+    out = []
+    cwd = tempfile.mkdtemp(prefix="c18_dead_shell_")
+
+    def run(name, params):
+        c = Command(name, params, cwd=cwd, timeout=10)
+        got = []
+        deadline = Till(seconds=12)
+        while not deadline:
+            v = c.stdout.pop(till=deadline)
+            if v == mo_threads.PLEASE_STOP:
+                break
+            if v is not None:
+                got.append(v)
+        try:
+            c.join(till=Till(seconds=5))
+        except Exception:   # noqa
+            pass
+        return c, got
+
+    try:
+        warm, got = run("dead-warm", ["echo", "warm"])
+        if got != ["warm"] or warm.returncode != 0:
+            return out          # the plain case is reported by the main batch
+        shell = warm.process
+        real_close = shell.stdin.close
+
+        def slow_close():
+            time.sleep(0.3)
+            return real_close()
+        shell.stdin.close = slow_close
+        crash, _ = run("dead-crash", ["bash", "-c", "echo bye; kill -9 $PPID"])
+        if crash.process is not shell:
+            return out          # the idle shell was not reused: nothing to observe
+        t0 = time.time()
+        while not shell.stopped and time.time() - t0 < 10:
+            time.sleep(0.05)
+        if not shell.stopped:
+            return out
+        time.sleep(0.2)
+        try:
+            nxt, got = run("dead-next", ["echo", "hello"])
+            if got != ["hello"] or nxt.returncode != 0:
+                out.append("C18: the Command issued after a shell had died (killed while it ran the previous Command of that directory) "
+                           "yielded stdout %r and returncode %r instead of ['hello'] and 0%s"
+                           % (got, nxt.returncode, " - it was handed the dead shell" if nxt.process is shell else ""))
+        except Exception as e:   # noqa
+            out.append("C18: the Command issued after a shell had died could not run: %s" % str(e).strip().splitlines()[0][:160])
+    finally:
+        try:
+            os.rmdir(cwd)
+        except OSError:
+            pass
+    return out
 
 
 def probe_idle_reuse(Command, Till, mo_threads):
